@@ -120,7 +120,7 @@ class EqObj:
 class Values:
     """Argument values of one case.  A value is written as a JSON spec
         ["i",n] ["s",txt] ["f",x] ["b",bool] ["none"] ["nan",uid] ["obj",k]
-        ["l",[specs]] ["t",[specs]] ["set",[specs]] ["d",[[key,spec],...]]
+        ["l",[specs]] ["t",[specs]] ["set",[specs]] ["fset",[specs]] ["d",[[key,spec],...]] ["od",[[key,spec],...]]
     mat() builds a FRESH Python object for every use (equal-but-distinct lists, dicts, ...); a NaN is one float
     object per uid (a call entry reached twice passes the same object twice, two entries never share one).
     cls() numbers the objects of the case by Python `==` - the only thing the model knows about a value."""
@@ -145,6 +145,11 @@ class Values:
             return tuple(self.mat(x) for x in v[1])
         if k == "set":
             return set(self.mat(x) for x in v[1])
+        if k == "fset":
+            return frozenset(self.mat(x) for x in v[1])
+        if k == "od":
+            import collections
+            return collections.OrderedDict((kk, self.mat(x)) for kk, x in v[1])
         if k == "d":
             return dict((kk, self.mat(x)) for kk, x in v[1])
         raise ValueError(v)
@@ -631,6 +636,10 @@ AWKWARD = [
     ["l", [["l", [_A]], _K1]], ["l", [["l", [_A]], _K1]], ["d", [["k", ["l", [_A]]]]],
     ["i", 1], ["f", 1.0], ["b", True], ["i", 0], ["f", 0.0], ["b", False], ["none"],
     ["obj", 1], ["obj", 1], ["obj", 2], "nan", "nan-in-list",
+    # the same contents in another container type: list vs tuple differ under ==, set vs frozenset and dict vs
+    # OrderedDict do not
+    ["t", [_A]], ["t", [_A, _B]], ["l", [["t", [_A]], _K1]], ["t", [["l", [_A]], _K1]], ["fset", [["i", 1], ["i", 2]]],
+    ["od", [["k", ["i", 1]]]], ["d", [["k", ["t", [_A]]]]],
 ]
 
 
@@ -908,7 +917,10 @@ def run(ctx):
     NEST = ["l", [["l", [_A]], _K1]]
     vals = [L1, L1b, L2, _K1, ["d", [["k", ["i", 1]]]], _K2, ["set", [["i", 1], ["i", 2]]], ["set", [["i", 2], ["i", 1]]], NEST,
             ["l", [["l", [["s", "a"]]], ["d", [["k", ["i", 1]]]]]], ["i", 1], ["f", 1.0], ["b", True], ["nan", 1], ["nan", 2],
-            ["obj", 1], ["obj", 1], ["obj", 2], ["none"], None]
+            ["obj", 1], ["obj", 1], ["obj", 2], ["none"], None,
+            # ... and the same contents in another container type (top level and nested)
+            ["t", [_A]], ["t", [_A, _B]], ["l", [["t", [_A]], _K1]], ["t", [["l", [_A]], _K1]], ["fset", [["i", 1], ["i", 2]]],
+            ["od", [["k", ["i", 1]]]], ["d", [["k", ["t", [_A]]]]], ["d", [["k", ["l", [_A]]]]]]
     spell = lambda v, how: ([], []) if v is None else (([v], []) if how else ([], [["t", v]]))  # noqa: E731
     for n1, v1 in enumerate(vals):
         for n2, v2 in enumerate(vals):
@@ -916,7 +928,8 @@ def run(ctx):
             g = [_t("build", [["t", ["i", 1]]]), _t("main", pre=[[0, c1[0], c1[1]]], post=[[0, c2[0], c2[1]]])]
             for dd in (True, False):
                 cases.append({"tasks": g, "default": None, "form": "names", "req": [[1, []]], "dedupe": dd, "dedupe_via": "config"})
-    xcalls = [([_A, L1], []), ([_A, L1b], []), ([_A, L2], []), ([_A, L1, L1], []), ([_A], [["z", _K1]]),
+    xcalls = [([_A, ["t", [_A]]], []), ([_A], [["z", ["t", [_A]]]]), ([_A], [["z", L1]]),
+              ([_A, L1], []), ([_A, L1b], []), ([_A, L2], []), ([_A, L1, L1], []), ([_A], [["z", _K1]]),
               ([_A], [["z", ["d", [["k", ["i", 1]]]]]]), ([_A], [["z", _K2]]), ([_A], [["z", ["nan", 3]]]), ([_A], [["z", ["nan", 3]]])]
     for c1, c2 in itertools.product(xcalls, repeat=2):
         g = [_t("stop", [["x", None], ["rest", None, "var"], ["kw", None, "varkw"]]),
@@ -924,7 +937,9 @@ def run(ctx):
         for dd in (True, False):
             cases.append({"tasks": g, "default": None, "form": "names", "req": [[1, []]], "dedupe": dd, "dedupe_via": "config"})
     # ... and as direct (name, kwargs) requests
-    for v1, v2 in itertools.product([L1, L1b, L2, _K1, ["d", [["k", ["i", 1]]]], ["i", 1], ["b", True], ["obj", 1], ["obj", 1]], repeat=2):
+    for v1, v2 in itertools.product([L1, L1b, L2, _K1, ["d", [["k", ["i", 1]]]], ["i", 1], ["b", True], ["obj", 1], ["obj", 1],
+                                     ["t", [_A]], ["t", [_A, _B]], ["fset", [["i", 1]]], ["set", [["i", 1]]], ["od", [["k", ["i", 1]]]]],
+                                    repeat=2):
         g = [_t("build", [["t", ["i", 1]]])]
         cases.append({"tasks": g, "default": None, "form": "pairs", "req": [[0, [["t", v1]]], [0, [["t", v2]]]], "dedupe": True,
                       "dedupe_via": "config"})
@@ -947,6 +962,12 @@ def run(ctx):
                 rq = [[depth - 1, []]] + ([[second, []]] if second is not None else [])
                 for dd in (True, False):
                     cases.append({"tasks": g, "default": None, "form": "names", "req": rq, "dedupe": dd, "dedupe_via": "config"})
+    # ... and one invocation as call(...) entry, the other as (name, kwargs) request of the same session
+    for v1, v2 in itertools.product([L1, ["t", [_A]], L2, ["t", [_A, _B]], NEST, ["t", [["l", [_A]], _K1]], _K1, ["od", [["k", ["i", 1]]]]],
+                                    repeat=2):
+        g = [_t("emit", [["t", ["i", 1]]]), _t("main", pre=[[0, [], [["t", v1]]]])]
+        for rq in ([[1, []], [0, [["t", v2]]]], [[0, [["t", v2]]], [1, []]]):
+            cases.append({"tasks": g, "default": None, "form": "pairs", "req": rq, "dedupe": True, "dedupe_via": "config"})
     out.exhaustive = True
     n_exh = len(cases)
     # 3. random graphs with parameters, baked arguments, all request forms, several names per task, shared bodies,
@@ -983,9 +1004,11 @@ def run(ctx):
                 if any(not cli_requestable(t["params"]) or has_kind(t["params"], "ko") for t in c["tasks"]):
                     out.hist["with_varargs_kwonly_or_varkw_signature"] += 1
                 blob = json.dumps([t["pre"] + t["post"] for t in c["tasks"]] + [c["req"]])
-                if any(x in blob for x in ('["l", [', '["d", [', '["set", [', '["obj", ')):
+                if any(x in blob for x in ('["l", [', '["d", [', '["set", [', '["obj", ', '["od", [')):
                     out.hist["with_unhashable_arguments"] += 1
-                if any(x in blob for x in ('["f", ', '["b", ', '["nan", ', '["none"]', '["t", [')):
+                if '["t", [' in blob and '["l", [' in blob:
+                    out.hist["with_lists_and_tuples"] += 1
+                if any(x in blob for x in ('["f", ', '["b", ', '["nan", ', '["none"]', '["t", [', '["fset", [')):
                     out.hist["with_cross_type_equal_nan_or_none_arguments"] += 1
                 if any(t.get("hidden") for t in c["tasks"]):
                     out.hist["with_unregistered_helper_tasks"] += 1
